@@ -614,6 +614,8 @@ def op_strategy():
         st.tuples(st.just("store_session_other_device"), sel, sel).map(list),
         st.tuples(st.just("delete_session"), sel).map(list),
         st.tuples(st.just("delete_all"), sel).map(list),
+        st.tuples(st.just("delete_all"), st.sampled_from([0, 0, 1])).map(list),
+        st.tuples(st.just("store_session"), st.sampled_from([0, 0, 1]), st.sampled_from([0, 0, 1])).map(list),
         st.just(["store_prekey"]),
         st.just(["store_prekey"]),
         st.tuples(st.just("remove_prekey"), sel).map(list),
@@ -642,6 +644,12 @@ def _enum_basic():
     # the upload that is being confirmed named keys that were consumed in the meantime, in any position of the list
     for order in ([0, 1, 2], [2, 0, 1], [0, 2, 1], [2]):
         yield {"sub": "script", "ops": [["store_prekey"], ["store_prekey"], ["store_prekey"], ["remove_prekey", 2], ["set_sent", order], ["reopen"]]}
+    # the very record that was there before a wipe is stored again (restored from what was loaded before)
+    for wipe in ("delete_all", "delete_session"):
+        yield {"sub": "script", "ops": [["store_session", 0, 0], [wipe, 0], ["store_session", 0, 0], ["reopen"]]}
+        yield {"sub": "script", "ops": [["store_session", 2, 3], ["reopen"], ["store_session", 2, 3], [wipe, 2], ["store_session", 2, 3], ["store_session", 2, 3], ["reopen"]]}
+    yield {"sub": "script", "ops": [["save_identity", 0, 1], ["save_identity", 0, 1], ["store_sender_key", 0, 0, 1], ["store_sender_key", 0, 0, 1], ["store_prekey"],
+                                    ["remove_prekey", 0], ["store_prekey"], ["reopen"]]}
     yield {"sub": "script", "ops": [["store_session", 1, 0], ["save_identity", 1, 2], ["delete_session", 1], ["reopen"],
                                     ["store_session", 1, 3], ["delete_all", 1], ["reopen"]]}
 
